@@ -188,6 +188,72 @@ func runC20(c *core.Ctx) {
 		}
 	}
 
+	// ---------- publish ----------
+	c.Rule("C20.publish", "a value placed into a package-level synchronised container (sync.Map Store / LoadOrStore / Swap, atomic.Value Store on a package-level variable of a library package) is complete when it is placed there: from the publishing call no map update, field or element store into that value - nor into what LoadOrStore returned, which is the shared copy - is reachable (other goroutines can already see it; filling it in afterwards is a data race and readers see half-filled tables)", 0)
+	for _, fn := range p.ModFns {
+		pk := core.FuncPkg(fn)
+		if pk == nil || !libraryPkg(core.RelPkg(pk.Path())) || len(fn.Blocks) == 0 {
+			continue
+		}
+		np := 0
+		for _, ci := range core.Calls(fn) {
+			o := core.CalleeObj(ci)
+			if o == nil {
+				continue
+			}
+			isSyncMap := core.IsMethod(ci, "sync", "Map", o.Name()) && (o.Name() == "Store" || o.Name() == "LoadOrStore" || o.Name() == "Swap")
+			isAtomic := core.IsMethod(ci, "sync/atomic", "Value", o.Name()) && (o.Name() == "Store" || o.Name() == "Swap" || o.Name() == "CompareAndSwap")
+			if !isSyncMap && !isAtomic {
+				continue
+			}
+			if g := globalRoot(core.Receiver(ci)); g == nil || !p.InModuleGlobal(g) {
+				continue
+			}
+			np++
+			args := core.Args(ci)
+			if len(args) == 0 {
+				continue
+			}
+			published := []ssa.Value{args[len(args)-1]}
+			if cv := core.CallValue(ci); cv != nil && o.Name() == "LoadOrStore" {
+				published = append(published, cv)
+			}
+			shared := map[ssa.Value]bool{}
+			for _, pv := range published {
+				for w := range core.BackSlice(pv, core.SliceOpts{Stores: true}) {
+					switch w.(type) {
+					case *ssa.MakeMap, *ssa.MakeSlice, *ssa.Alloc, *ssa.Call, *ssa.Extract:
+						shared[w] = true
+					}
+				}
+				shared[core.Strip(pv)] = true
+			}
+			touches := func(v ssa.Value) bool {
+				for w := range core.BackSlice(v, core.SliceOpts{Stores: true}) {
+					if shared[w] {
+						return true
+					}
+				}
+				return false
+			}
+			isLateWrite := func(in ssa.Instruction) bool {
+				switch x := in.(type) {
+				case *ssa.MapUpdate:
+					return touches(x.Map)
+				case *ssa.Store:
+					switch x.Addr.(type) {
+					case *ssa.FieldAddr, *ssa.IndexAddr:
+						root, _ := rootOfAddr(x.Addr)
+						return touches(root)
+					}
+				}
+				return false
+			}
+			path, reached := core.Reach(fn, ci, isLateWrite, nil, nil)
+			c.Check(!reached, fmt.Sprintf("%s#published-complete%d", core.FuncKey(fn), np), p.Pos(ci.Pos()), "nothing writes into the value after it was published", "a value is written into after it was placed in a package-level "+map[bool]string{true: "sync.Map", false: "atomic.Value"}[isSyncMap]+": concurrent first users of the same key read the table while it is being filled (data race, wrong or missing entries)", p.Witness(path)...)
+		}
+	}
+
 	// ---------- readonly ----------
 	c.Rule("C20.readonly", "no function reachable (CHA, library packages) from a read-only entry point performs a non-fresh write to a field of a shared-by-construction type; a write through a parameter counts as fresh only if every call site passes a fresh object", 12)
 	shared := sharedTypes(p)
